@@ -34,6 +34,14 @@ _want_spacing = {
 
 _want_spacing.update(dict.fromkeys(PlyLexer.keywords, (2, 2)))
 
+# literals with a user-defined suffix are spaced like the literal they extend
+_want_spacing.update(
+    {
+        f"UD_{t}": _want_spacing[t]
+        for t in LexerTokenStream._user_defined_literal_start
+    }
+)
+
 
 @dataclass
 class Token:
